@@ -989,3 +989,9 @@ V("twin: is_tangent as the bilinear form of the pole", "C14", CURVE, "        re
   "        h = np.expand_dims(plane.array, -1)\n        pole = np.linalg.solve(self.array, h)\n        return np.isclose(np.squeeze(matmul(h, pole, transpose_a=True), (-2, -1)), 0, atol=EQ_TOL_ABS)", "silent")
 V("tangent from the conjugated point", "C14", CURVE, "        return PlaneCollection.from_array(matvec(self.array, at.array))", "        return PlaneCollection.from_array(matvec(self.array, np.conj(at.array)))", "E19.polar", "QuadricTensor")
 V("twin: tangent through the transposed matrix", "C14", CURVE, "        return PlaneCollection.from_array(matvec(self.array, at.array))", "        return PlaneCollection.from_array(matvec(self.array, at.array, transpose_a=True))", "silent")
+V("intersect hands the point pair on as a conic of the same kind", "C14", CURVE, "                p, q = QuadricCollection.from_array(b, is_dual=not self.is_dual).components",
+  "                p, q = QuadricCollection.from_array(b, is_dual=self.is_dual).components", "E19.isect", "QuadricTensor.intersect", quick=True)
+V("intersect pulls the conic back by a sum instead of a product", "C14", CURVE, "                b = matmul(matmul(m, self.array, transpose_a=True), m)",
+  "                b = matmul(m, self.array, transpose_a=True) + matmul(self.array, m)", "E19.isect", "QuadricTensor.intersect")
+V("twin: intersect with the skew matrix untransposed and the sign restored", "C14", CURVE, "                b = matmul(matmul(m, self.array, transpose_a=True), m)",
+  "                b = -matmul(matmul(m, self.array), m)", "silent")
